@@ -34,6 +34,7 @@ class Plan:
         self.schedules = schedules
         self.pick = pick
         self.calls = []  # one dict per imap/imap_unordered call
+        self.recorder = None  # optional vf.doubles.fsrecorder.FsRecorder: per-item file-system operations
 
     def behaviour(self, nchunks, workers, mode):
         if nchunks == 0:
@@ -128,9 +129,14 @@ class FakePool:
                     raise FakePoolError("ill-formed behaviour: %r but chunk not in flight" % (ev,))
                 busy.discard(k)
                 out = []
-                for x in chunks[k - 1]:
+                first = sum(len(ch) for ch in chunks[:k - 1])
+                for j, x in enumerate(chunks[k - 1]):
                     try:
-                        out.append(func(x))
+                        if self.plan.recorder is not None:
+                            with self.plan.recorder.item(len(self.plan.calls), first + j + 1):
+                                out.append(func(x))
+                        else:
+                            out.append(func(x))
                     except Exception as ex:  # a real pool ships the exception to the consumer
                         out.append(_Raised(ex))
                         break
